@@ -54,7 +54,12 @@ def build(table):
 
         def res(ch):
             return ch[1] if ch[0] == 'v' else objs[ch[1]]
-        if t == 'list':
+        if n.get('wide'):
+            # a wide, flat container of scalars (bulk code paths)
+            w = n['wide']
+            objs[i] = list(range(w)) if t == 'list' else set(range(w)) if t == 'set' else \
+                dict(('k%d' % j, j) for j in range(w))
+        elif t == 'list':
             objs[i] = [res(ch) if (ch[0] == 'v' or ch[1] < i) else None for ch in n['c']]
         elif t == 'dict':
             objs[i] = {}
@@ -273,18 +278,29 @@ def check(c, st):
     if not is_container(root):
         return None
     visit = make_visit(c['prog'])
+    kw = {}
+    model_visit = visit
+    if c.get('reraise_visit') is False and visit is not None:
+        # reraise_visit=False: an item whose visit raises is kept as it is (documented)
+        kw['reraise_visit'] = False
+
+        def model_visit(path, key, value):
+            try:
+                return visit(path, key, value)
+            except Exception:
+                return True
     st.monitor_evals += 1
     before = fingerprint(root)
     cyc = has_cycle(root)
     weak = cyc and cycle_through_tuple(root)
     try:
-        want = ('ok', model_remap(root, visit))
+        want = ('ok', model_remap(root, model_visit))
     except RecursionError:
         return None
     except Exception as e:
         want = ('exc', type(e).__name__)
     try:
-        got = ('ok', iu.remap(root) if visit is None else iu.remap(root, visit=visit))
+        got = ('ok', iu.remap(root) if visit is None else iu.remap(root, visit=visit, **kw))
     except RecursionError:
         got = ('exc', 'RecursionError')
     except Exception as e:
@@ -366,8 +382,14 @@ def gen_table(r, maxnodes, maxdepth):
     table = []
     meta = []     # (hashable, depth)
     n = r.randint(1, maxnodes)
+    nwide = r.choice([0, 0, 0, 0, 1, 2])
     for i in range(n):
         t = r.choices(CONTAINERS, [4, 4, 3, 1, 1])[0]
+        if i < nwide:
+            t = r.choice(['list', 'dict', 'set'])
+            table.append({'t': t, 'c': [], 'wide': r.choice([63, 64, 65, 100, 300])})
+            meta.append((False, 1))
+            continue
         need_hashable = t in ('set', 'frozenset')
         k = r.choice([0, 0, 1, 2, 2, 3, 4, 5])
         children, depth, hashable = [], 1, t in ('tuple', 'frozenset')
@@ -389,7 +411,7 @@ def gen_table(r, maxnodes, maxdepth):
     # back-edges into mutable containers
     if r.random() < 0.35:
         for _ in range(r.randint(1, 2)):
-            muts = [i for i, nd in enumerate(table) if nd['t'] in ('list', 'dict')]
+            muts = [i for i, nd in enumerate(table) if nd['t'] in ('list', 'dict') and not nd.get('wide')]
             if not muts:
                 break
             i = r.choice(muts)
@@ -417,7 +439,10 @@ def gen_prog(r):
 
 def gen(r, maxnodes=12, maxdepth=6):
     table = gen_table(r, maxnodes, maxdepth)
-    return {'table': table, 'root': len(table) - 1, 'prog': gen_prog(r), 'query': gen_prog(r)}
+    c = {'table': table, 'root': len(table) - 1, 'prog': gen_prog(r), 'query': gen_prog(r)}
+    if c['prog'] != 'default' and any(a == 'raise' for _p, a in c['prog']) and r.random() < 0.6:
+        c['reraise_visit'] = False
+    return c
 
 
 def shrink(case, fails):
